@@ -199,6 +199,67 @@ def analyse(mod, run, label):
         run.check(not missing, "A3-bitmap-selection-within-domain", {"path": [fmt(a) if a[0] != "cmp" else a[1] for a in atoms]},
                   Finding("A3-bitmap-selected-outside-domain", sel.name, "BITMAP", "path-" + "+".join(sorted(fmt(a) for a in atoms if a[0] == "field" and a[2])),
                           "a path to `return VARINT_ADAPTIVE_BITMAP` does not establish %s: the bitmap codec stores an ascending duplicate-free set, so such input is decoded reordered or deduplicated" % ", ".join(fmt(a) for a in missing)))
+    # ---- A5: what the statistics call "fits in bitmap range" is inside what the encoder's BITMAP arm actually stores ----
+    ana = need_fn(mod, "varintAdaptiveAnalyze")
+    def excl_bound(fn, ci, truth=True):
+        """icmp (x ult/ule C) -> exclusive upper bound on x when it holds"""
+        if ci.op != "icmp" or ci.ops[1]["k"] != "int": return None
+        c = int(ci.ops[1]["v"]); p = ci["pred"]
+        if not truth: return None
+        return {"ult": c, "ule": c + 1, "slt": c, "sle": c + 1}.get(p)
+    fits = []
+    for i in ana.insts():
+        if i.op == "store" and field_of(ana, mod, i.ops[1]) == "fitsInBitmapRange":
+            v = strip(ana, i.ops[0])
+            if v["k"] == "int":
+                if int(v["v"]) != 0: fits.append((i, None))
+                continue
+            ci = ana.imap[v["v"]] if v["k"] == "inst" else None
+            x = strip(ana, ci.ops[0]) if ci is not None and ci.op == "icmp" else None
+            isMax = x is not None and x["k"] == "inst" and ana.imap[x["v"]].op == "load" and field_of(ana, mod, ana.imap[x["v"]].ops[0]) == "maxValue"
+            fits.append((i, excl_bound(ana, ci) if isMax else None))
+    if not fits: raise AnalysisBroken("A5: no store to fitsInBitmapRange in varintAdaptiveAnalyze")
+    # the BITMAP arm: every varintBitmapAdd is guarded by value < K2, and its argument is that value truncated to 16 bits
+    adds = [i for i in enc.calls() if i.get("callee") == "varintBitmapAdd"]
+    if not adds: raise AnalysisBroken("A5: the encoder's BITMAP arm does not call varintBitmapAdd")
+    enc.dom(); kept = []
+    def canon(o):
+        o = strip(enc, o)
+        if o["k"] == "inst" and enc.imap[o["v"]].op == "load":
+            r = fi.same_value(enc.imap[o["v"]])
+            return ("ld", r if r is not None else o["v"])
+        return (o["k"], o.get("v"))
+    def akey(o, d=0):
+        if o["k"] != "inst" or d > 6: return (o["k"], o.get("v"))
+        x = enc.imap[o["v"]]
+        if x.op in ("getelementptr", "bitcast", "zext", "sext"): return (x.op, x.d.get("coff")) + tuple(akey(y, d + 1) for y in x.ops)
+        return ("v", x.id)
+    def same_val(a, b):
+        """same SSA value, or two loads of the same address with nothing that writes memory between them (guard block -> its sole successor)"""
+        if canon(a) == canon(b): return True
+        a, b = strip(enc, a), strip(enc, b)
+        if not (a["k"] == b["k"] == "inst"): return False
+        la, lb = enc.imap[a["v"]], enc.imap[b["v"]]
+        if la.op != "load" or lb.op != "load" or akey(la.ops[0]) != akey(lb.ops[0]): return False
+        if [pb.id for pb in lb.block.preds] != [la.block.id]: return False
+        between = la.block.insts[la.block.insts.index(la) + 1:] + lb.block.insts[:lb.block.insts.index(lb)]
+        return not any(x.op in ("store", "call") for x in between)
+    for a in adds:
+        arg = a.ops[1]; src = strip(enc, arg)            # value before truncation
+        k2 = None
+        for b in enc.blocks:
+            t = b.term
+            if t.op == "br" and len(t.ops) == 3 and t.ops[0]["k"] == "inst":
+                ci = enc.imap[t.ops[0]["v"]]
+                if ci.op == "icmp" and same_val(ci.ops[0], src) and enc.dominates(t.ops[2]["v"], a.block.id) and [pb.id for pb in enc.bmap[t.ops[2]["v"]].preds] == [b.id]:
+                    e = excl_bound(enc, ci)
+                    if e is not None: k2 = e if k2 is None else min(k2, e)
+        kept.append(min(k2, 1 << 16) if k2 is not None else None)
+    for st, k1 in fits:
+        okk = k1 is not None and all(k is not None and k1 <= k for k in kept)
+        run.check(okk, "A5-bitmap-range-flag-within-what-is-stored", {"flag_means_max_below": k1, "encoder_keeps_below": kept},
+                  Finding("A5-bitmap-range-flag-too-wide", ana.name, "fitsInBitmapRange", "store",
+                          "fitsInBitmapRange is set for maxValue < %s but the encoder's BITMAP arm only stores values below %s: a selected array can contain a value the bitmap silently drops" % (k1, kept), loc=loc(st)))
     # ---- A4 ----
     for i in dec.calls():
         c = i.get("callee")
@@ -220,4 +281,5 @@ def run(tier):
     return run.finish(
         "Four structural necessary conditions of losslessness of the adaptive container: header byte == reported type == dispatched type; encode and "
         "decode dispatch tables agree and cover everything the selector can return; every selector path to BITMAP implies the bitmap codec's "
-        "lossless domain; no length-taking sub-decoder receives a literal length.")
+        "lossless domain; no length-taking sub-decoder receives a literal length; the flag fitsInBitmapRange is only set when every value is below "
+        "the bound under which the encoder's BITMAP arm stores values (A5).")
